@@ -2,25 +2,46 @@
 (* Call-record validation for C17: every recorded call of a public method of *)
 (* Graph / TaskGraph / JobGraph is judged against the definitions of Dag.tla. *)
 (*                                                                           *)
-(* File is a JSON array of graph entries                                     *)
-(*   { "g": gid, "n": n, "edges": [[parent, child], ...],                    *)
-(*     "calls": [ { "id": k, "method": m, "args": [...], "w": [w1..wn] | [], *)
+(* File is a JSON array of SESSIONS.  A session is the life of real objects  *)
+(* that are driven through one sequence of states of the graph machine of    *)
+(* Dag.tla (EmptyG, AddNodeG, AddChildG, RemoveG) and queried on the way:    *)
+(*   { "g": gid, "n": N,                     nodes are taken from 1..N       *)
+(*     "init": [ {"v": node, "cs": [children]} ... ]   the mapping handed to *)
+(*                                           the constructor ([] = Graph())  *)
+(*     "muts": [ {"op": "add_node" | "add_child" | "remove", "a": x, "b": y} *)
+(*               ... ]                       the mutator calls, in order     *)
+(*     "calls": [ { "id": k, "obj": o, "ver": j, "method": m, "func": f,     *)
+(*                  "args": [...], "w": [w1..wN] | [],                       *)
 (*                  "result": value | 0, "raised": "" | exception type } ] } *)
-(* i.e. the call records [{id, n, edges, weights, method, args, result |     *)
-(* raised}] with the graph factored out of the calls made on it.  Nodes are  *)
-(* 1..n; `w` is the weight vector the call was made with (get_longest_path,  *)
-(* critical_path_runtime, completion_time; [] = the default weights of       *)
-(* get_longest_path).                                                        *)
+(* Every object o of the session receives every mutator call; call k was     *)
+(* made on object o when exactly the first j mutator calls had been applied  *)
+(* (version j; version 0 = the constructed object).  `calls` is in the order  *)
+(* in which the calls were made.  The specification computes the state of    *)
+(* the machine at every version and judges EVERY call against the state AT   *)
+(* ITS VERSION: the answer of a query is a function of the current graph     *)
+(* only -- not of earlier queries on the object (the harness shuffles and    *)
+(* repeats them), not of the way the graph was built, not of what the answer *)
+(* was before the last mutation.  `w` is the weight vector the call was made  *)
+(* with (get_longest_path, critical_path_runtime, completion_time; [] = the  *)
+(* default weights of get_longest_path); `func` is "" | "min" | "max", the   *)
+(* optional argument of get_node_depth.                                      *)
+(*                                                                           *)
+(* Pinned convention (conv.cached_property): TaskGraph / JobGraph declare    *)
+(* critical_path_runtime (functools.cached_property) and completion_time as  *)
+(* computed once.  A read that does not equal the maximum of the current     *)
+(* graph but repeats the value an earlier read of the same property on the   *)
+(* same object returned at an earlier version is reported under              *)
+(* info.cached_property (never a violation); any other value is judged.      *)
 (*                                                                           *)
 (* The checks are relational: any order / path / enumeration satisfying the  *)
 (* definition is accepted.  For n <= BFMax the defining (brute force) forms   *)
 (* decide, above that the polynomial forms (DagMC shows they agree; on every  *)
 (* recorded graph with n <= BFMax both forms are evaluated and a difference   *)
 (* is reported under the clause spec.selfcheck = broken oracle).              *)
-(* One TLC state per graph; every failing record is reported as              *)
+(* One TLC state per session; every failing record is reported as            *)
 (*   <<"@@", id, clause, reason, expected>>                                  *)
 (* and every chain ends with                                                 *)
-(*   <<"@@done", chain, graphs judged, clause -> records judged, fails>>.    *)
+(*   <<"@@done", chain, sessions judged, clause -> records judged, fails>>.  *)
 EXTENDS Dag, Json, Integers
 
 CONSTANTS File,     \* absolute path of the JSON batch
@@ -52,16 +73,35 @@ SetListing(clause, what, s, expected) ==
     ELSE IF Range(s) \ expected # {} THEN V(clause, "non_" \o what \o "_listed", expected)
     ELSE Pass(clause)
 
-\* verdicts <<id, verdict>> for all calls recorded on one graph
-EvalGraph(g) ==
-    LET n     == g.n
-        E     == Range(g.edges)
+NodeSeqMethods == {"topological_sort", "get_sources", "get_source_tasks", "get_sink_tasks",
+                   "get_longest_path", "breadth_first", "depth_first_all", "depth_first",
+                   "breadth_first_from"}
+NodeArgMethods == {"get_node_depth", "are_dependent", "depth_first", "breadth_first_from"}
+
+\* a call record renamed to the node set 1..|V| (Dag.tla, Rank)
+Ren(Vs, c) ==
+    [c EXCEPT
+        !.args   = IF c.method \in NodeArgMethods
+                   THEN [i \in 1..Len(c.args) |-> Rank(Vs, c.args[i])] ELSE c.args,
+        !.result = IF c.raised = "" /\ c.method \in NodeSeqMethods
+                   THEN [i \in 1..Len(c.result) |-> Rank(Vs, c.result[i])] ELSE c.result,
+        !.w      = IF Len(c.w) = 0 THEN c.w
+                   ELSE [i \in 1..Cardinality(Vs) |-> c.w[Unrank(Vs, i)]]]
+
+\* verdicts <<id, verdict>> for the calls g.calls[k], k \in idx, all made on the
+\* state <<V0, E0>> of the graph machine
+EvalAt(V0, E0, g, idx) ==
+    LET n     == Cardinality(V0)
+        same  == IsCompact(V0)
+        E     == IF same THEN E0 ELSE CompactE([V |-> V0, E |-> E0])
+        Call(k) == IF same THEN g.calls[k] ELSE Ren(V0, g.calls[k])
         cyc   == HasCycle(n, E)
         small == n <= BFMax
         srcs  == Sources(n, E)
         snks  == Sinks(n, E)
         reach == ReachTable(n, E)
         depth == DepthTable(n, E)
+        mindepth == MinDepthTable(n, E)
         Wof(c) == IF Len(c.w) = 0 THEN DefaultW(n, E) ELSE c.w
         LW(W)  == IF small THEN LongestWeightDef(n, E, W) ELSE LongestWeight(n, E, W)
 
@@ -109,13 +149,20 @@ EvalGraph(g) ==
                 ELSE IF exp THEN V("C17.dependent", "false_for_reachable_pair", exp)
                 ELSE V("C17.dependent", "true_for_unreachable_pair", exp)
 
+        \* get_node_depth(v) = get_node_depth(v, func=max): deepest parent + 1;
+        \* get_node_depth(v, func=min): shallowest parent + 1
         NodeDepth(c) ==
             LET v == c.args[1]
-                exp == IF small THEN DepthDef(E, v) ELSE depth[v]
-            IN  IF exp # depth[v] THEN V("spec.selfcheck", "DepthDef_differs_from_DepthTable", exp)
-                ELSE IF c.raised # "" THEN V("C17.depth", "raised_on_dag", exp)
-                ELSE IF c.result < exp THEN V("C17.depth", "depth_too_small", exp)
-                ELSE IF c.result > exp THEN V("C17.depth", "depth_too_large", exp)
+                mn == c.func = "min"
+                tag == IF mn THEN "min_" ELSE ""
+                tbl == IF mn THEN mindepth[v] ELSE depth[v]
+                exp == IF ~small THEN tbl
+                       ELSE IF mn THEN MinDepthDef(E, v) ELSE DepthDef(E, v)
+            IN  IF c.func \notin {"", "min", "max"} THEN V("spec.unsupported", "unknown_func", c.func)
+                ELSE IF exp # tbl THEN V("spec.selfcheck", "DepthDef_differs_from_DepthTable", exp)
+                ELSE IF c.raised # "" THEN V("C17.depth", tag \o "raised_on_dag", exp)
+                ELSE IF c.result < exp THEN V("C17.depth", tag \o "depth_too_small", exp)
+                ELSE IF c.result > exp THEN V("C17.depth", tag \o "depth_too_large", exp)
                 ELSE Pass("C17.depth")
 
         Bfs(c) ==
@@ -159,14 +206,22 @@ EvalGraph(g) ==
                                "completion_time", "are_dependent", "get_node_depth"}
 
         Judge(c) ==
-            IF c.method \in {"get_sources", "get_source_tasks"}
+            \* the constructor and the mutator calls are only recorded when they raise:
+            \* a call the graph machine allows (ok at this version) must succeed
+            IF c.method \in {"construct", "add_node", "add_child", "remove"}
+                THEN IF c.raised # "" THEN V("C17.mutator", "allowed_call_raised", c.method)
+                     ELSE Pass("C17.mutator")
+            ELSE IF c.method \in {"get_sources", "get_source_tasks"}
                 THEN IF c.raised # "" THEN V("C17.sources", "raised", srcs)
                      ELSE SetListing("C17.sources", "source", c.result, srcs)
             ELSE IF c.method = "get_sink_tasks"
                 THEN IF c.raised # "" THEN V("C17.sinks", "raised", snks)
                      ELSE SetListing("C17.sinks", "sink", c.result, snks)
+            ELSE IF \E i \in 1..Len(c.args) : c.args[i] \notin Nodes(n)
+                THEN V("spec.unsupported", "argument_is_not_a_node_of_this_version", c.args)
             ELSE IF NeedsTopo(c.method) /\ cyc THEN OnCycle(c)
-            ELSE IF cyc THEN V("spec.unsupported", "traversal_recorded_on_cyclic_graph", 0)
+            \* traversals are only judged on DAGs (counted, no verdict)
+            ELSE IF cyc THEN Pass("info.traversal_on_cycle")
             ELSE IF c.method = "topological_sort" THEN Topo(c)
             ELSE IF c.method = "get_longest_path" THEN LongestPath(c)
             ELSE IF c.method \in {"critical_path_runtime", "completion_time"} THEN Critical(c)
@@ -179,7 +234,69 @@ EvalGraph(g) ==
                 THEN DfsAgainst(c.result, Closure(E, srcs), c.raised)
             ELSE IF c.method = "breadth_first_from" THEN BfsFrom(c)
             ELSE V("spec.unsupported", "unknown_method", c.method)
-    IN  {<<g.calls[k].id, Judge(g.calls[k])>> : k \in 1..Len(g.calls)}
+    IN  {<<k, Judge(Call(k))>> : k \in idx}
+
+\* the states of the graph machine: version 0 = Graph(init), version j = after
+\* the first j mutator calls; `ok` = every call so far was one the machine allows
+RECURSIVE InitFold(_, _, _)
+InitFold(G, init, k) ==
+    IF k > Len(init) THEN G
+    ELSE InitFold(AddChildrenG(AddNodeG(G, init[k].v), init[k].v, init[k].cs, 1), init, k + 1)
+InitOK(init) ==
+    /\ \A i, j \in 1..Len(init) : i # j => init[i].v # init[j].v
+    /\ \A i \in 1..Len(init) : NoDup(init[i].cs)
+
+MutOK(G, m) ==
+    CASE m.op = "add_node"  -> TRUE
+      [] m.op = "add_child" -> CanAddChild(G, m.a, m.b)
+      [] m.op = "remove"    -> CanRemove(G, m.a)
+      [] OTHER              -> FALSE
+MutApply(G, m) ==
+    CASE m.op = "add_node"  -> AddNodeG(G, m.a)
+      [] m.op = "add_child" -> AddChildG(G, m.a, m.b)
+      [] m.op = "remove"    -> RemoveG(G, m.a)
+      [] OTHER              -> G
+
+RECURSIVE VersionsFrom(_, _, _)
+VersionsFrom(acc, muts, k) ==
+    IF k > Len(muts) THEN acc
+    ELSE LET last == acc[Len(acc)]
+         IN  VersionsFrom(Append(acc, [G  |-> MutApply(last.G, muts[k]),
+                                       ok |-> last.ok /\ MutOK(last.G, muts[k])]),
+                          muts, k + 1)
+Versions(g) == VersionsFrom(<<[G |-> InitFold(EmptyG, g.init, 1), ok |-> InitOK(g.init)]>>, g.muts, 1)
+
+CachedProps == {"critical_path_runtime", "completion_time"}
+
+\* verdicts <<id, verdict>> for all calls of one session
+EvalGraph(g) ==
+    LET vers == Versions(g)
+        K    == 1..Len(g.calls)
+        used == {g.calls[k].ver : k \in K}
+        At(j) ==
+            LET idx == {k \in K : g.calls[k].ver = j}
+            IN  IF j \notin 0..Len(g.muts)
+                    THEN {<<k, V("spec.unsupported", "no_such_version", j)>> : k \in idx}
+                ELSE LET st == vers[j + 1]
+                     IN  IF ~st.ok THEN {<<k, V("spec.unsupported", "mutation_outside_the_machine", j)>> : k \in idx}
+                         ELSE IF st.G.V = {} \/ ~(st.G.V \subseteq 1..g.n) \/ ~WellFormedG(st.G)
+                             THEN {<<k, V("spec.unsupported", "query_on_empty_or_malformed_graph", j)>> : k \in idx}
+                         ELSE EvalAt(st.G.V, st.G.E, g, idx)
+        raw == UNION {At(j) : j \in used}
+        \* conv.cached_property (see the head of the module)
+        Final(k, v) ==
+            LET c == g.calls[k]
+            IN  IF /\ v.reason # ""
+                   /\ v.clause \in {"C17.critical_path", "C17.topo_cycle"}
+                   /\ c.method \in CachedProps
+                   /\ c.raised = ""
+                   /\ \E j \in 1..(k - 1) :
+                         LET d == g.calls[j]
+                         IN  d.obj = c.obj /\ d.method = c.method /\ d.raised = ""
+                             /\ d.ver < c.ver /\ d.result = c.result
+                THEN V("info.cached_property", "value_of_an_earlier_version", v.exp)
+                ELSE v
+    IN  {<<g.calls[x[1]].id, Final(x[1], x[2])>> : x \in raw}
 
 AddCounts(old, vs) ==
     LET cls == {x[2].clause : x \in vs}
@@ -194,8 +311,7 @@ Step ==
     /\ LET g   == Batch[pos]
            vs  == EvalGraph(g)
            bad == {x \in vs : x[2].reason # ""}
-       IN  /\ WellFormed(g.n, Range(g.edges))
-           /\ Cardinality(vs) = Len(g.calls)
+       IN  /\ Cardinality(vs) = Len(g.calls)
            /\ \A x \in bad : PrintT(<<"@@", x[1], x[2].clause, x[2].reason, x[2].exp>>)
            /\ cnt' = AddCounts(cnt, vs)
            /\ nfail' = nfail + Cardinality(bad)
